@@ -670,6 +670,13 @@ fn check_change_of_reinit(checker: u8, hist: &[u32], reinit_at: usize) -> Option
             if k == reinit_at {
                 c.init(&TagP, &mut st).map_err(|e| format!("{:#}", e))?;
             }
+            if reinit_at >= 1000 && reinit_at != usize::MAX && k == reinit_at - 1000 {
+                // an evaluation while the observed state is missing fails; the caller puts the state back and carries on:
+                // nothing was reported, so the value last reported is still the one before
+                let gone = st.take::<Iterations>();
+                let _ = c.evaluate(&TagP, &mut st);
+                st.insert(gone);
+            }
             st.set_value::<Iterations>(*v);
             out.push(c.evaluate(&TagP, &mut st).map_err(|e| format!("{:#}", e))?);
         }
@@ -696,8 +703,9 @@ fn check_change_of_reinit(checker: u8, hist: &[u32], reinit_at: usize) -> Option
         }
         exp.push(changed);
     }
-    let head = format!("C10 ChangeOf checker={}{}", if checker == 0 { "PartialEq" } else { "DeltaEq" }, if reinit_at < hist.len() { " re-initialised" } else { "" });
-    let ctx = |w: String| format!("ChangeOf with {} over value history {:?}{}: {}", name, hist, if reinit_at < hist.len() { format!(" (initialised again before evaluation {})", reinit_at) } else { String::new() }, w);
+    let failed = reinit_at >= 1000 && reinit_at != usize::MAX;
+    let head = format!("C10 ChangeOf checker={}{}", if checker == 0 { "PartialEq" } else { "DeltaEq" }, if reinit_at < hist.len() { " re-initialised" } else if failed { " after-failed-evaluation" } else { "" });
+    let ctx = |w: String| format!("ChangeOf with {} over value history {:?}{}: {}", name, hist, if reinit_at < hist.len() { format!(" (initialised again before evaluation {})", reinit_at) } else if failed { format!(" (before evaluation {} one more evaluation was made while the observed state was missing; it failed and the state was put back)", reinit_at - 1000) } else { String::new() }, w);
     match r {
         Err(p) => Some((format!("{} panic", head), ctx(p))),
         Ok(Err(e)) => Some((format!("{} error", head), ctx(e))),
@@ -980,6 +988,22 @@ pub fn run(rep: &mut Report) {
                     p.states += 1;
                     if let Some((s, d)) = check_change_of_reinit(t, &hist, at) {
                         p.violate(s, d, json!({"kind": "change", "checker": t, "hist": hist, "reinit": at}));
+                    }
+                }
+            }
+        }
+    }
+    // a failed evaluation (observed state temporarily missing) in the middle of a history
+    for l in 2..=4usize {
+        for h in sequences(3, l) {
+            let hist: Vec<u32> = h.iter().map(|x| *x as u32).collect();
+            for at in 1..l {
+                for t in [0u8, 2] {
+                    p.transitions += l as u64 + 1;
+                    p.traces += 1;
+                    p.states += 1;
+                    if let Some((s, d)) = check_change_of_reinit(t, &hist, 1000 + at) {
+                        p.violate(s, d, json!({"kind": "change", "checker": t, "hist": hist, "reinit": 1000 + at}));
                     }
                 }
             }
